@@ -21,7 +21,7 @@ TRUSTED_BASE = [
 LEVEL = {}
 ASSUMPTIONS = {}
 EXPLANATION = {}
-RELEASE_IN_QUICK = {'C01', 'C06'}      # quick tier: a few cases of these run on a release build (behaviour that differs between dev and release: debug_assert!, overflow checks)
+RELEASE_IN_QUICK = {'C01', 'C04', 'C06'}      # quick tier: a few cases of these run on a release build (behaviour that differs between dev and release: debug_assert!, overflow checks)
 NEEDS_RELEASE = {'C01', 'C04', 'C06', 'C08', 'C09'}      # thorough tier: every 5th case of these also runs on a release build of the runner
 SCENARIOS = {}
 
@@ -796,7 +796,7 @@ def scen_C04(ctx):
         for k in ks:
             lines.append('del m0 %s' % G.hx(k))
         lines += ['iter m0 iter', 'closeall']
-        pair(ctx, 'hist', i, lines, stats=g.stats, release=(not ctx.quick and i % 5 == 0))
+        pair(ctx, 'hist', i, lines, stats=g.stats, release=((not ctx.quick and i % 5 == 0) or i % 8 == 1))
     parallel(hist, range(ctx.scale(80, 600)))
     # the scan at byte level: traversals of sparse tables with the fine io-trace on
     io_traces(ctx, ctx.scale(6, 60), 0, 0, ctx.scale(16, 120))
